@@ -3,6 +3,7 @@
 package pfcpiface
 
 import (
+	"context"
 	"time"
 
 	"github.com/wmnsk/go-pfcp/ie"
@@ -198,4 +199,98 @@ func H_C12_seq() {
 	vAssert("increments", a == s0+1 && b == s0+2)
 	vAssert("consecutive-requests-differ", a != b)
 	vCover("seq")
+}
+
+// vCtx: a cancellable context for the engine (context.WithCancel is overridden
+// to produce it; natively the real package runs).
+type vCtx struct {
+	done   chan struct{}
+	closed bool
+}
+
+func (c *vCtx) Deadline() (time.Time, bool)       { return time.Time{}, false }
+func (c *vCtx) Done() <-chan struct{}             { return c.done }
+func (c *vCtx) Value(key interface{}) interface{} { return nil }
+func (c *vCtx) Err() error {
+	if c.closed {
+		return context.Canceled
+	}
+	return nil
+}
+
+// H_C12_hbmonitor: the heartbeat monitor end to end under the engine's timer
+// model: a peer heartbeat (one pending reset) re-arms the monitor's timer WITH
+// THE HEARTBEAT INTERVAL; when the timer then expires the agent heartbeats,
+// retransmits max_req_retries times without an answer, declares the peer dead
+// and removes its sessions.
+//
+// Under the engine the durations are symbolic and the re-arming is observed at
+// (*time.Ticker).Reset; natively they are 300 ms / 40 ms and it is observed on
+// the clock: the first heartbeat must not leave before most of an interval has
+// passed since the reset.
+func H_C12_hbmonitor() {
+	e := vNewEnv(false)
+	hbRaw, rtRaw := vU64("heart_beat_interval_ns"), vU64("resp_timeout_ns")
+	hb, rt := time.Duration(hbRaw&(1<<40-1))+1, time.Duration(rtRaw&(1<<40-1))+1
+	vAssume(hb != rt)
+	retries := vChoose("max_req_retries", 3)
+	var resets []time.Duration
+	if vInEngine() {
+		vOverride("(*time.Ticker).Reset", func(t *time.Ticker, d time.Duration) { resets = append(resets, d) })
+		vOverride("context.WithCancel", func(parent context.Context) (context.Context, context.CancelFunc) {
+			c := &vCtx{done: make(chan struct{})}
+			return c, func() {
+				if !c.closed {
+					c.closed = true
+					close(c.done)
+				}
+			}
+		})
+	} else {
+		vTimeHook = nil // this harness reads the real clock natively
+		hb, rt = 300*time.Millisecond, 40*time.Millisecond
+	}
+	e.u.enableHBTimer, e.u.hbInterval, e.u.respTimeout, e.u.maxReqRetries = true, hb, rt, uint8(retries)
+	e.dp.fixedCause = 1
+	// a live session of this peer
+	pdrs, fars, qers := vConcreteRules()
+	e.vSend(vEstablishment(1, 0xa1, "cp.test", pdrs, fars, qers))
+	vAssume(len(e.pc.store.GetAllSessions()) == 1)
+	w0 := len(e.conn.writes)
+	// the peer's heartbeat has just been handled: one reset is pending
+	e.pc.hbReset <- struct{}{}
+	t0 := time.Now()
+	finished := make(chan struct{})
+	var firstHB time.Duration
+	go func() {
+		e.pc.startHeartBeatMonitor()
+		close(finished)
+	}()
+	if vInEngine() {
+		vJoin()
+	} else {
+		for len(e.conn.writes) == w0 && time.Since(t0) < 3*time.Second {
+			time.Sleep(time.Millisecond)
+		}
+		firstHB = time.Since(t0)
+		select {
+		case <-finished:
+		case <-time.After(5 * time.Second):
+		}
+	}
+	n := len(e.conn.writes) - w0
+	vObserve("hbmon", n)
+	if vInEngine() {
+		vAssert("peer-heartbeat-re-arms-the-timer-with-the-heartbeat-interval", len(resets) == 1 && resets[0] == hb)
+	} else {
+		vAssert("peer-heartbeat-re-arms-the-timer-with-the-heartbeat-interval", firstHB >= hb*3/4)
+	}
+	vAssert("unanswered-heartbeat-is-sent-1+max_req_retries-times", n == 1+retries)
+	for k := w0; k < len(e.conn.writes); k++ {
+		m, err := message.Parse(e.conn.writes[k])
+		vAssert("transmissions-are-heartbeat-requests", err == nil && m.MessageType() == message.MsgTypeHeartbeatRequest)
+	}
+	vAssert("peer-declared-dead:sessions-removed", len(e.pc.store.GetAllSessions()) == 0)
+	vAssert("peer-declared-dead:association-reported-done", len(e.done) == 1)
+	vCover("hbmonitor")
 }
